@@ -123,7 +123,18 @@ pub fn dyntick(data: &[u8]) {
         } else {
             None
         };
-        Ok(c13::ArrCase { tick_spacing: ts, array_no, ops, prefill })
+        // further trailing bytes: regular stretches (fill / drain / cycle)
+        let mut macros = vec![];
+        for _ in 0..u.int_in_range(0u8..=4).unwrap_or(0) {
+            let seed: u8 = u.arbitrary().unwrap_or(0);
+            let slot = u.int_in_range(0i16..=87).unwrap_or(0);
+            macros.push(match u.int_in_range(0u8..=2).unwrap_or(0) {
+                0 => c13::Macro::FillAll { seed, skip: vec![slot] },
+                1 => c13::Macro::DrainAll { seed, keep: if seed % 2 == 0 { vec![] } else { vec![slot] } },
+                _ => c13::Macro::Cycle { slot, times: u.int_in_range(1u8..=100).unwrap_or(1) },
+            });
+        }
+        Ok(c13::ArrCase { tick_spacing: ts, array_no, ops, prefill, macros })
     })() else {
         return;
     };
